@@ -49,7 +49,7 @@ def gen_specs(which):
     pool = {
         "a": D.spec(["x", "y"], [x, YL], [kx, "O"], vk="f", base=2, attrs={"long": "v"}, axattrs={"x": {"units": "m"}, "y": {"kind": "s"}}),
         "b": D.spec(["x"], [x], [kx], vk="i", base=3),
-        "c": D.spec([], [], [], vk="f", base=4),
+        "c": D.spec([], [], [], vk="f", base=4, attrs={"const": [1], "units": "1"}),     # 0-d, with metadata of its own
         "d": D.spec(["y", "x"], [YL, x], ["O", kx], vk="f", base=5),
         "e": D.spec(["y"], [YL], ["O"], vk="f", base=6, attrs={"u": 1}),
         "f": D.spec(["x", "y", "z"], [x, YL, ZL], [kx, "O", "i"], vk="f", base=7),
@@ -79,7 +79,7 @@ def ds_specs(which):
     kx = "f" if which in ("float", "float2") else "i"
     V = D.spec(["x", "y"], [x, YL], [kx, "O"], vk="f", base=2, attrs={"long": "v"}, nan=(1,) if which == "nan" else ())
     W = D.spec(["x"], [x], [kx], vk="i" if which != "float" else "f", base=3)
-    S = D.spec([], [], [], vk="f", base=4)
+    S = D.spec([], [], [], vk="f", base=4, attrs={"const": [1]})
     T = D.spec(["y", "x"], [YL, x], ["O", kx], vk="f", base=5)
     U = D.spec(["y"], [YL], ["O"], vk="f", base=6, attrs={"u": 1})
     return {"full": [("v", V), ("w", W), ("s", S), ("t", T)], "one": [("w", W)], "lack": [("v", V), ("u", U)],
@@ -244,6 +244,9 @@ def same_da(got, exp, what, rtol=1e-12):
         return "{}: expected a scalar / 0-d variable, got {}".format(what, common.describe(got))
     if not same_scalar(gv, ev, rtol):
         return "{}: {!r} but the DimArray operation gives {!r}".format(what, py(gv), py(ev))
+    if isinstance(exp, DimArray) and isinstance(got, DimArray) and common.freeze(dict(got.attrs)) != common.freeze(dict(exp.attrs)):
+        # a 0-d variable (it has none of the affected dimensions: "left unchanged") keeps its metadata like any other variable
+        return "{}: metadata of the 0-d variable {} expected {}".format(what, dict(got.attrs), dict(exp.attrs))
     return None
 
 
